@@ -26,6 +26,16 @@ I64MAX = 2 ** 63 - 1
 CODEC_NAMES = {0: "none", 1: "gzip", 2: "snappy", 3: "lz4", 4: "zstd"}
 
 
+import time as _time
+
+
+def tick(ck, label):
+    now = _time.time()
+    last = getattr(ck, "_c09_last", ck.t0)
+    ck.extra.setdefault("timing_s", {})[label] = round(now - last, 1)
+    ck._c09_last = now
+
+
 # ============================================================================ extension build
 SETUP_PY = r'''
 from Cython.Build import cythonize
@@ -570,7 +580,11 @@ def check_v2_case(ck, T, case, res, model):
                 lambda: f"{cid}: append results / size() differ: " + (mb.get("error") or first_diff(mb.get("steps"), steps)))
         # ---- correspondence: stamp + reader
         decs = r["dec"]
-        dec_ok = all("recs" in decs[d] for d in ("py", "cy"))
+        if decs.get("cy") == "=py":
+            decs["cy"] = decs["py"]
+        if isinstance(r.get("ref"), dict) and r["ref"].get("recs") == "=py":
+            r["ref"]["recs"] = decs["py"]["recs"]
+        accepted = [rec for rec, s in zip(recs, steps) if s[1] is not None]
         T.check(f"v2-stamp-model-vs-reference", "error" not in mr and mr.get("stamped") == r["stamped"],
                 lambda: f"{cid}/{name}: stamped bytes differ: " + (mr.get("error") or first_diff(mr.get("stamped") or "", r["stamped"])))
         for d in ("py", "cy"):
@@ -876,7 +890,7 @@ def coq_sample(ck, T, v2_cases, v2_res, legacy_cases, legacy_res, split_res, mod
 
     body = ["Open Scope string_scope."]
     expect = []
-    budget = 60000          # hex characters of literals (Coq's front end is the bottleneck)
+    budget = 20000          # hex characters of literals (Coq's front end is the bottleneck)
     for case in v2_cases:
         res = v2_res.get(case["id"], {})
         for name, I in (("py", "Py"), ("cy", "Cy")):
@@ -972,10 +986,12 @@ def pipeline(ck, v2_cases, legacy_cases, split_cases, varints, decs, crcs, do_co
     runner = out.strip().splitlines()[-1] if rc == 0 and out.strip() else ""
     ck.obligation("model:extraction-builds", rc == 0 and os.path.exists(runner), "" if rc == 0 else out[-600:])
     ck.checker_cmds.append("ocaml/build_c09.sh (Extraction, ExtrOcamlBasic only) ; ocaml/gen/c09/c09_runner")
+    tick(ck, "models+extraction")
     if rc != 0:
         return T
     # ---- implementation: fresh extension build, both implementations + reference in one process
-    tmp = build_extension(ck)
+    tmp = ck._c09_ext.result() if getattr(ck, "_c09_ext", None) else build_extension(ck)
+    tick(ck, "extension-build(wait)")
     try:
         env = {"PYTHONPATH": tmp}
         for case in legacy_cases:
@@ -991,12 +1007,14 @@ def pipeline(ck, v2_cases, legacy_cases, split_cases, varints, decs, crcs, do_co
                 p["varint"] = payload["varint"]
                 p["crc"] = crcs
             shards.append(p)
-        with cf.ThreadPoolExecutor(max_workers=nsh) as ex:
+        with cf.ThreadPoolExecutor(max_workers=nsh + 1) as ex:
+            fpure = ex.submit(run_impl, "c09_impl.py", {"split": split_cases}, 1500,
+                              {"PYTHONPATH": tmp, "AIOKAFKA_NO_EXTENSIONS": "1"}) if split_cases else None
             outs = list(ex.map(lambda p: run_impl("c09_impl.py", p, timeout=1500, env=env), shards))
-        pure = run_impl("c09_impl.py", {"split": split_cases}, timeout=900,
-                        env={"PYTHONPATH": tmp, "AIOKAFKA_NO_EXTENSIONS": "1"}) if split_cases else {"split": []}
+            pure = fpure.result() if fpure else {"split": []}
     finally:
         shutil.rmtree(tmp, ignore_errors=True)
+    tick(ck, "implementation-runs")
     where = outs[0]["where"]
     ck.extra["implementation_under_test"] = where
     ck.extra["codecs"] = outs[0]["codecs"]
@@ -1036,6 +1054,7 @@ def pipeline(ck, v2_cases, legacy_cases, split_cases, varints, decs, crcs, do_co
     for j, h in enumerate(crcs):
         lines.append(f"CR c{j} {h or '~'}")
     model = run_runner(runner, lines)
+    tick(ck, "model-runner")
     errs = [(k, v["error"]) for k, v in model.items() if isinstance(v, dict) and "error" in v]
     T.check("model-runner-ran", not errs and len(model) >= len(set(l.split()[0] + l.split()[1] for l in lines)),
             lambda: f"runner errors {errs[:3]}; {len(model)} answers for {len(lines)} requests")
@@ -1078,10 +1097,14 @@ def run(ck: Check, only=None):
                       "a split case: a concatenation of 1..6 batches of mixed magic + truncated tail through both splitters; "
                       "a varint/crc case: one value/string); non-trivial = at least one record or byte; distinct by full case content")
     rng = ck.rng
+    # the extension is compiled from the current .pyx while Coq re-checks the proofs
+    ext_pool = cf.ThreadPoolExecutor(max_workers=1)
+    ck._c09_ext = ext_pool.submit(build_extension, ck)
     # --- (1) proofs over the regenerated translation
     ok_t, rep = ck.regenerate(["VarintEnc", "VarintSize", "VarintDec"])
     ok_p, out = ck.coq_props("C09", timeout=1500)
     ck.log(f"translation ok={ok_t}, proofs ok={ok_p}")
+    tick(ck, "translate+proofs")
 
     # --- (2) cases
     codecs_available = [1]
@@ -1094,15 +1117,16 @@ def run(ck: Check, only=None):
         pass
     corpus = load_corpus()
     if only is None:
-        v2_cases = corpus["v2"] + [gen_v2_case(rng, i, ck.thorough, codecs_available) for i in range(ck.n(700, 9000))]
-        legacy_cases = corpus["legacy"] + [gen_legacy_case(rng, i, ck.thorough, codecs_available) for i in range(ck.n(350, 4000))]
-        split_cases = corpus["split"] + [gen_split_case(rng, i, codecs_available) for i in range(ck.n(250, 3000))]
-        varints, decs = gen_varints(rng, ck.n(600, 6000))
+        v2_cases = corpus["v2"] + [gen_v2_case(rng, i, ck.thorough, codecs_available) for i in range(ck.n(400, 9000))]
+        legacy_cases = corpus["legacy"] + [gen_legacy_case(rng, i, ck.thorough, codecs_available) for i in range(ck.n(200, 4000))]
+        split_cases = corpus["split"] + [gen_split_case(rng, i, codecs_available) for i in range(ck.n(150, 3000))]
+        varints, decs = gen_varints(rng, ck.n(450, 6000))
         crcs = gen_crc(rng, ck.n(40, 300))
     else:
         v2_cases, legacy_cases, split_cases = only.get("v2", []), only.get("legacy", []), only.get("split", [])
         varints, decs = only.get("varints", [0, 1, -1]), only.get("decs", [])
         crcs = only.get("crc", ["313233343536373839"])
+    tick(ck, "generate")
     res = pipeline(ck, v2_cases, legacy_cases, split_cases, varints, decs, crcs)
     if isinstance(res, Tally):
         return
@@ -1168,9 +1192,11 @@ def run(ck: Check, only=None):
         T.check("crc-vs-model", m.get("crc32c") == e[0] == e[1] == e[2] == e[4] and m.get("crc32") == e[3],
                 lambda: f"crc of {h[:24]}...: impl/ref {e} model {m}")
         ck.count(key=("crc", h), nontrivial=bool(h))
+    tick(ck, "compare+monitors")
     # ---- the runner against evaluation inside Coq
     nsample = coq_sample(ck, T, v2_cases, v2_res, legacy_cases, legacy_res, split_res, model, varints, crcs) if ok_p or True else 0
     ck.extra["coq_vm_compute_sample"] = nsample
+    tick(ck, "coq-sample")
     # ---- obligations per correspondence class
     groups = {}
     for cls, n in T.n.items():
